@@ -139,8 +139,11 @@ Section Sem.
     | [] => [(x, Some v)]
     | (y, w) :: t => if String.eqb x y then (y, Some v) :: t else (y, w) :: upd x v t
     end.
-  Definition env_of (names : list string) (f : string -> option val) : env :=
-    map (fun x => (x, f x)) names.
+  Fixpoint env_of (names : list string) (f : string -> option val) : env :=
+    match names with
+    | [] => []
+    | x :: t => (x, f x) :: env_of t f
+    end.
 
   Definition prims := string -> list val -> list (string * val) -> res val.
 
